@@ -2,6 +2,7 @@
 use crate::Exec;
 use hx_common::{hex, unhex};
 use solana_instruction::{AccountMeta, Instruction};
+use star_frame::{cpi::MakeCpi, pinocchio::account_info::AccountInfo};
 use solana_pubkey::Pubkey;
 use spl_associated_token_account_interface as ata_ref;
 use spl_token_interface::instruction as tok_ref;
@@ -106,7 +107,105 @@ fn u64_class(v: u64) -> &'static str {
     }
 }
 
-type Built = (star_frame::Result<Instruction>, Reference);
+/// The CPI build of the same instruction: given one native `AccountInfo` per slot (in `keys` order), runs
+/// `Program::cpi(data, …CpiAccounts { .. }, None).invoke()`.
+pub type CpiFn = Box<dyn Fn(&[AccountInfo]) -> star_frame::Result<()>>;
+
+/// Framework side of one op: the client build, and the CPI build with the key of each of its slots.
+pub struct Framework {
+    pub client: star_frame::Result<Instruction>,
+    pub keys: Vec<Pubkey>,
+    pub cpi: CpiFn,
+    /// `bytes_of(&<I as InstructionDiscriminant<Set>>::DISCRIMINANT)` of the compiled code
+    pub disc: Vec<u8>,
+    /// payload struct fields BY NAME (the harness is compiled against the struct) with the borsh bytes of each
+    /// field value on its own — the layout probe locates them in the instruction data
+    pub arg_fields: Vec<(&'static str, Vec<u8>)>,
+    /// account struct fields by name with the number of slots each contributes (harness literal order)
+    pub acct_fields: Vec<(&'static str, usize)>,
+}
+
+fn disc_of<P, I>(_: &I) -> Vec<u8>
+where
+    P: StarFrameProgram,
+    I: star_frame::instruction::InstructionDiscriminant<P::InstructionSet>,
+{
+    star_frame::bytemuck::bytes_of(&I::DISCRIMINANT).to_vec()
+}
+
+/// The key an account slot gets on the CPI path. The client path defaults `Sysvar<Rent>` / `Program<_>` slots
+/// when the client passes `None`; a CPI caller has to pass the account, so the harness passes the canonical one.
+trait SlotKey {
+    fn slot_key(&self, field: &str) -> Pubkey;
+}
+impl SlotKey for Pubkey {
+    fn slot_key(&self, _field: &str) -> Pubkey {
+        *self
+    }
+}
+impl SlotKey for Option<Pubkey> {
+    fn slot_key(&self, field: &str) -> Pubkey {
+        self.unwrap_or_else(|| match field {
+            "rent" => Pubkey::from_str_const("SysvarRent111111111111111111111111111111111"),
+            "system_program" => solana_system_interface::program::ID,
+            "token_program" => spl_token_interface::ID,
+            other => panic!("no canonical account for optional slot {other}"),
+        })
+    }
+}
+
+macro_rules! both {
+    ($prog:ty, $data:expr, [$($df:ident : $dv:expr),*], $m:ident, $client:ident, $cpi:ident, { $($f:ident : $k:expr),* $(,)? }) => {{
+        let data = $data;
+        let client = <$prog>::instruction(&data, $m::$client { $($f: $k),* });
+        let keys: Vec<Pubkey> = vec![$(SlotKey::slot_key(&$k, stringify!($f))),*];
+        let cpi: CpiFn = Box::new(move |i: &[AccountInfo]| {
+            let mut it = i.iter().copied();
+            <$prog>::cpi(data, $m::$cpi { $($f: it.next().expect("one info per slot")),* }, None).invoke()
+        });
+        Framework {
+            client,
+            keys,
+            cpi,
+            disc: disc_of::<$prog, _>(&data),
+            arg_fields: vec![$((stringify!($df), borsh::to_vec(&$dv).expect("borsh"))),*],
+            acct_fields: vec![$((stringify!($f), 1usize)),*],
+        }
+    }};
+}
+
+/// same, for the two account structs that end in `signers: Rest<AccountInfo>`
+macro_rules! both_rest {
+    ($prog:ty, $data:expr, [$($df:ident : $dv:expr),*], $m:ident, $client:ident, $cpi:ident, { $($f:ident : $k:expr),* $(,)? }, $rest:ident) => {{
+        let data = $data;
+        let client = <$prog>::instruction(&data, $m::$client { $($f: $k,)* $rest: $rest.clone() });
+        let mut keys: Vec<Pubkey> = vec![$(SlotKey::slot_key(&$k, stringify!($f))),*];
+        keys.extend($rest.iter().copied());
+        let cpi: CpiFn = Box::new(move |i: &[AccountInfo]| {
+            let mut it = i.iter().copied();
+            <$prog>::cpi(
+                data,
+                $m::$cpi { $($f: it.next().expect("one info per slot"),)* $rest: it.collect() },
+                None,
+            )
+            .invoke()
+        });
+        Framework {
+            client,
+            keys,
+            cpi,
+            disc: disc_of::<$prog, _>(&data),
+            arg_fields: vec![$((stringify!($df), borsh::to_vec(&$dv).expect("borsh"))),*],
+            acct_fields: {
+                let mut v = vec![$((stringify!($f), 1usize)),*];
+                v.push((stringify!($rest), $rest.len()));
+                v
+            },
+        }
+    }};
+}
+
+type Built = (Framework, Reference);
 
 fn build(name: &str, a: &[&str], bumps: &mut Vec<String>) -> Option<Built> {
     let tok_id = spl_token_interface::ID;
@@ -146,10 +245,7 @@ fn build(name: &str, a: &[&str], bumps: &mut Vec<String>) -> Option<Built> {
             arity!(5);
             let (f, nw, l, s, o) = (k!(0), k!(1), n!(2), n!(3), k!(4));
             (
-                sf_sys::System::instruction(
-                    &sf_sys::CreateAccount { lamports: l, space: s, owner: o },
-                    sf_sys::CreateAccountClientAccounts { funder: f, new_account: nw },
-                ),
+                both!(sf_sys::System, sf_sys::CreateAccount { lamports: l, space: s, owner: o }, [lamports: l, space: s, owner: o], sf_sys, CreateAccountClientAccounts, CreateAccountCpiAccounts, { funder: f, new_account: nw }),
                 rf(sys_ref::create_account(&f, &nw, l, s, &o)),
             )
         }
@@ -157,7 +253,7 @@ fn build(name: &str, a: &[&str], bumps: &mut Vec<String>) -> Option<Built> {
             arity!(2);
             let (acc, o) = (k!(0), k!(1));
             (
-                sf_sys::System::instruction(&sf_sys::Assign { owner: o }, sf_sys::AssignClientAccounts { account: acc }),
+                both!(sf_sys::System, sf_sys::Assign { owner: o }, [owner: o], sf_sys, AssignClientAccounts, AssignCpiAccounts, { account: acc }),
                 rf(sys_ref::assign(&acc, &o)),
             )
         }
@@ -165,10 +261,7 @@ fn build(name: &str, a: &[&str], bumps: &mut Vec<String>) -> Option<Built> {
             arity!(3);
             let (f, r, l) = (k!(0), k!(1), n!(2));
             (
-                sf_sys::System::instruction(
-                    &sf_sys::Transfer { lamports: l },
-                    sf_sys::TransferClientAccounts { funder: f, recipient: r },
-                ),
+                both!(sf_sys::System, sf_sys::Transfer { lamports: l }, [lamports: l], sf_sys, TransferClientAccounts, TransferCpiAccounts, { funder: f, recipient: r }),
                 rf(sys_ref::transfer(&f, &r, l)),
             )
         }
@@ -176,10 +269,7 @@ fn build(name: &str, a: &[&str], bumps: &mut Vec<String>) -> Option<Built> {
             arity!(3);
             let (nn, rb, au) = (k!(0), k!(1), k!(2));
             (
-                sf_sys::System::instruction(
-                    &sf_sys::AdvanceNonceAccount,
-                    sf_sys::AdvanceNonceAccountClientAccounts { nonce_account: nn, recent_blockhashes: rb, nonce_authority: au },
-                ),
+                both!(sf_sys::System, sf_sys::AdvanceNonceAccount, [], sf_sys, AdvanceNonceAccountClientAccounts, AdvanceNonceAccountCpiAccounts, { nonce_account: nn, recent_blockhashes: rb, nonce_authority: au }),
                 pinned(rf(sys_ref::advance_nonce_account(&nn, &au)), 1, &rb),
             )
         }
@@ -187,16 +277,7 @@ fn build(name: &str, a: &[&str], bumps: &mut Vec<String>) -> Option<Built> {
             arity!(6);
             let (nn, r, rb, rent, au, l) = (k!(0), k!(1), k!(2), ok!(3), k!(4), n!(5));
             (
-                sf_sys::System::instruction(
-                    &sf_sys::WithdrawNonceAccount(l),
-                    sf_sys::WithdrawNonceAccountClientAccounts {
-                        nonce_account: nn,
-                        recipient: r,
-                        recent_blockhashes: rb,
-                        rent,
-                        nonce_authority: au,
-                    },
-                ),
+                both!(sf_sys::System, sf_sys::WithdrawNonceAccount(l), [f0: l], sf_sys, WithdrawNonceAccountClientAccounts, WithdrawNonceAccountCpiAccounts, { nonce_account: nn, recipient: r, recent_blockhashes: rb, rent: rent, nonce_authority: au }),
                 subst(pinned(rf(sys_ref::withdraw_nonce_account(&nn, &au, &r, l)), 2, &rb), 3, rent),
             )
         }
@@ -207,10 +288,7 @@ fn build(name: &str, a: &[&str], bumps: &mut Vec<String>) -> Option<Built> {
             let funder = Pubkey::new_from_array([7; 32]);
             let r = sys_ref::create_nonce_account(&funder, &nn, &au, 1).remove(1);
             (
-                sf_sys::System::instruction(
-                    &sf_sys::InitializeNonceAccount(au),
-                    sf_sys::InitializeNonceAccountClientAccounts { nonce_account: nn, recent_blockhashes: rb, rent },
-                ),
+                both!(sf_sys::System, sf_sys::InitializeNonceAccount(au), [f0: au], sf_sys, InitializeNonceAccountClientAccounts, InitializeNonceAccountCpiAccounts, { nonce_account: nn, recent_blockhashes: rb, rent: rent }),
                 subst(pinned(rf(r), 1, &rb), 2, rent),
             )
         }
@@ -218,10 +296,7 @@ fn build(name: &str, a: &[&str], bumps: &mut Vec<String>) -> Option<Built> {
             arity!(3);
             let (nn, au, na) = (k!(0), k!(1), k!(2));
             (
-                sf_sys::System::instruction(
-                    &sf_sys::AuthorizeNonceAccount(na),
-                    sf_sys::AuthorizeNonceAccountClientAccounts { nonce_account: nn, nonce_authority: au },
-                ),
+                both!(sf_sys::System, sf_sys::AuthorizeNonceAccount(na), [f0: na], sf_sys, AuthorizeNonceAccountClientAccounts, AuthorizeNonceAccountCpiAccounts, { nonce_account: nn, nonce_authority: au }),
                 rf(sys_ref::authorize_nonce_account(&nn, &au, &na)),
             )
         }
@@ -229,7 +304,7 @@ fn build(name: &str, a: &[&str], bumps: &mut Vec<String>) -> Option<Built> {
             arity!(2);
             let (acc, s) = (k!(0), n!(1));
             (
-                sf_sys::System::instruction(&sf_sys::Allocate { space: s }, sf_sys::AllocateClientAccounts { account: acc }),
+                both!(sf_sys::System, sf_sys::Allocate { space: s }, [space: s], sf_sys, AllocateClientAccounts, AllocateCpiAccounts, { account: acc }),
                 rf(sys_ref::allocate(&acc, s)),
             )
         }
@@ -237,10 +312,7 @@ fn build(name: &str, a: &[&str], bumps: &mut Vec<String>) -> Option<Built> {
             arity!(1);
             let nn = k!(0);
             (
-                sf_sys::System::instruction(
-                    &sf_sys::UpgradeNonceAccount,
-                    sf_sys::UpgradeNonceAccountClientAccounts { nonce_account: nn },
-                ),
+                both!(sf_sys::System, sf_sys::UpgradeNonceAccount, [], sf_sys, UpgradeNonceAccountClientAccounts, UpgradeNonceAccountCpiAccounts, { nonce_account: nn }),
                 rf(sys_ref::upgrade_nonce_account(nn)),
             )
         }
@@ -250,10 +322,7 @@ fn build(name: &str, a: &[&str], bumps: &mut Vec<String>) -> Option<Built> {
             let (mint, rent, d, ma, fa) = (k!(0), ok!(1), b!(2), k!(3), ok!(4));
             bumps.push(format!("opt:freeze_authority:{}", fa.is_some()));
             (
-                Token::instruction(
-                    &sf_tok::InitializeMint { decimals: d, mint_authority: ma, freeze_authority: fa },
-                    sf_tok::InitializeMintClientAccounts { mint, rent },
-                ),
+                both!(Token, sf_tok::InitializeMint { decimals: d, mint_authority: ma, freeze_authority: fa }, [decimals: d, mint_authority: ma, freeze_authority: fa], sf_tok, InitializeMintClientAccounts, InitializeMintCpiAccounts, { mint: mint, rent: rent }),
                 subst(rf(tok_ref::initialize_mint(&tok_id, &mint, &ma, fa.as_ref(), d).ok()?), 1, rent),
             )
         }
@@ -261,10 +330,7 @@ fn build(name: &str, a: &[&str], bumps: &mut Vec<String>) -> Option<Built> {
             arity!(4);
             let (acc, mint, o, rent) = (k!(0), k!(1), k!(2), ok!(3));
             (
-                Token::instruction(
-                    &sf_tok::InitializeAccount,
-                    sf_tok::InitializeAccountClientAccounts { account: acc, mint, owner: o, rent },
-                ),
+                both!(Token, sf_tok::InitializeAccount, [], sf_tok, InitializeAccountClientAccounts, InitializeAccountCpiAccounts, { account: acc, mint: mint, owner: o, rent: rent }),
                 subst(rf(tok_ref::initialize_account(&tok_id, &acc, &mint, &o).ok()?), 3, rent),
             )
         }
@@ -275,10 +341,7 @@ fn build(name: &str, a: &[&str], bumps: &mut Vec<String>) -> Option<Built> {
             let refs: Vec<&Pubkey> = signers.iter().collect();
             let r = tok_ref::initialize_multisig(&tok_id, &ms, &refs, m).ok();
             (
-                Token::instruction(
-                    &sf_tok::InitializeMultisig { m },
-                    sf_tok::InitializeMultisigClientAccounts { multisig: ms, rent, signers: signers.clone() },
-                ),
+                both_rest!(Token, sf_tok::InitializeMultisig { m }, [m: m], sf_tok, InitializeMultisigClientAccounts, InitializeMultisigCpiAccounts, { multisig: ms, rent: rent }, signers),
                 subst(Reference { ix: r, applicable: true }, 1, rent),
             )
         }
@@ -286,10 +349,7 @@ fn build(name: &str, a: &[&str], bumps: &mut Vec<String>) -> Option<Built> {
             arity!(4);
             let (s, d, o, n) = (k!(0), k!(1), k!(2), n!(3));
             (
-                Token::instruction(
-                    &sf_tok::Transfer { amount: n },
-                    sf_tok::TransferClientAccounts { source: s, destination: d, owner: o },
-                ),
+                both!(Token, sf_tok::Transfer { amount: n }, [amount: n], sf_tok, TransferClientAccounts, TransferCpiAccounts, { source: s, destination: d, owner: o }),
                 rf(tok_ref::transfer(&tok_id, &s, &d, &o, &[], n).ok()?),
             )
         }
@@ -297,10 +357,7 @@ fn build(name: &str, a: &[&str], bumps: &mut Vec<String>) -> Option<Built> {
             arity!(4);
             let (s, d, o, n) = (k!(0), k!(1), k!(2), n!(3));
             (
-                Token::instruction(
-                    &sf_tok::Approve { amount: n },
-                    sf_tok::ApproveClientAccounts { source: s, delegate: d, owner: o },
-                ),
+                both!(Token, sf_tok::Approve { amount: n }, [amount: n], sf_tok, ApproveClientAccounts, ApproveCpiAccounts, { source: s, delegate: d, owner: o }),
                 rf(tok_ref::approve(&tok_id, &s, &d, &o, &[], n).ok()?),
             )
         }
@@ -308,7 +365,7 @@ fn build(name: &str, a: &[&str], bumps: &mut Vec<String>) -> Option<Built> {
             arity!(2);
             let (s, o) = (k!(0), k!(1));
             (
-                Token::instruction(&sf_tok::Revoke, sf_tok::RevokeClientAccounts { source: s, owner: o }),
+                both!(Token, sf_tok::Revoke, [], sf_tok, RevokeClientAccounts, RevokeCpiAccounts, { source: s, owner: o }),
                 rf(tok_ref::revoke(&tok_id, &s, &o, &[]).ok()?),
             )
         }
@@ -318,10 +375,7 @@ fn build(name: &str, a: &[&str], bumps: &mut Vec<String>) -> Option<Built> {
             bumps.push(format!("authority_type:{}", a[2]));
             bumps.push(format!("opt:new_authority:{}", na.is_some()));
             (
-                Token::instruction(
-                    &sf_tok::SetAuthority { authority_type: ty_sf, new_authority: na },
-                    sf_tok::SetAuthorityClientAccounts { account: acc, current_authority: cur },
-                ),
+                both!(Token, sf_tok::SetAuthority { authority_type: ty_sf, new_authority: na }, [authority_type: ty_sf, new_authority: na], sf_tok, SetAuthorityClientAccounts, SetAuthorityCpiAccounts, { account: acc, current_authority: cur }),
                 rf(tok_ref::set_authority(&tok_id, &acc, na.as_ref(), ty_ref, &cur, &[]).ok()?),
             )
         }
@@ -329,10 +383,7 @@ fn build(name: &str, a: &[&str], bumps: &mut Vec<String>) -> Option<Built> {
             arity!(4);
             let (mint, acc, au, n) = (k!(0), k!(1), k!(2), n!(3));
             (
-                Token::instruction(
-                    &sf_tok::MintTo { amount: n },
-                    sf_tok::MintToClientAccounts { mint, account: acc, mint_authority: au },
-                ),
+                both!(Token, sf_tok::MintTo { amount: n }, [amount: n], sf_tok, MintToClientAccounts, MintToCpiAccounts, { mint: mint, account: acc, mint_authority: au }),
                 rf(tok_ref::mint_to(&tok_id, &mint, &acc, &au, &[], n).ok()?),
             )
         }
@@ -340,7 +391,7 @@ fn build(name: &str, a: &[&str], bumps: &mut Vec<String>) -> Option<Built> {
             arity!(4);
             let (acc, mint, o, n) = (k!(0), k!(1), k!(2), n!(3));
             (
-                Token::instruction(&sf_tok::Burn { amount: n }, sf_tok::BurnClientAccounts { account: acc, mint, owner: o }),
+                both!(Token, sf_tok::Burn { amount: n }, [amount: n], sf_tok, BurnClientAccounts, BurnCpiAccounts, { account: acc, mint: mint, owner: o }),
                 rf(tok_ref::burn(&tok_id, &acc, &mint, &o, &[], n).ok()?),
             )
         }
@@ -348,10 +399,7 @@ fn build(name: &str, a: &[&str], bumps: &mut Vec<String>) -> Option<Built> {
             arity!(3);
             let (acc, d, o) = (k!(0), k!(1), k!(2));
             (
-                Token::instruction(
-                    &sf_tok::CloseAccount,
-                    sf_tok::CloseAccountClientAccounts { account: acc, destination: d, owner: o },
-                ),
+                both!(Token, sf_tok::CloseAccount, [], sf_tok, CloseAccountClientAccounts, CloseAccountCpiAccounts, { account: acc, destination: d, owner: o }),
                 rf(tok_ref::close_account(&tok_id, &acc, &d, &o, &[]).ok()?),
             )
         }
@@ -359,10 +407,7 @@ fn build(name: &str, a: &[&str], bumps: &mut Vec<String>) -> Option<Built> {
             arity!(3);
             let (acc, mint, au) = (k!(0), k!(1), k!(2));
             (
-                Token::instruction(
-                    &sf_tok::FreezeAccount,
-                    sf_tok::FreezeAccountClientAccounts { account: acc, mint, authority: au },
-                ),
+                both!(Token, sf_tok::FreezeAccount, [], sf_tok, FreezeAccountClientAccounts, FreezeAccountCpiAccounts, { account: acc, mint: mint, authority: au }),
                 rf(tok_ref::freeze_account(&tok_id, &acc, &mint, &au, &[]).ok()?),
             )
         }
@@ -370,10 +415,7 @@ fn build(name: &str, a: &[&str], bumps: &mut Vec<String>) -> Option<Built> {
             arity!(3);
             let (acc, mint, au) = (k!(0), k!(1), k!(2));
             (
-                Token::instruction(
-                    &sf_tok::ThawAccount,
-                    sf_tok::ThawAccountClientAccounts { account: acc, mint, authority: au },
-                ),
+                both!(Token, sf_tok::ThawAccount, [], sf_tok, ThawAccountClientAccounts, ThawAccountCpiAccounts, { account: acc, mint: mint, authority: au }),
                 rf(tok_ref::thaw_account(&tok_id, &acc, &mint, &au, &[]).ok()?),
             )
         }
@@ -381,10 +423,7 @@ fn build(name: &str, a: &[&str], bumps: &mut Vec<String>) -> Option<Built> {
             arity!(6);
             let (s, mint, d, o, n, dec) = (k!(0), k!(1), k!(2), k!(3), n!(4), b!(5));
             (
-                Token::instruction(
-                    &sf_tok::TransferChecked { amount: n, decimals: dec },
-                    sf_tok::TransferCheckedClientAccounts { source: s, mint, destination: d, owner: o },
-                ),
+                both!(Token, sf_tok::TransferChecked { amount: n, decimals: dec }, [amount: n, decimals: dec], sf_tok, TransferCheckedClientAccounts, TransferCheckedCpiAccounts, { source: s, mint: mint, destination: d, owner: o }),
                 rf(tok_ref::transfer_checked(&tok_id, &s, &mint, &d, &o, &[], n, dec).ok()?),
             )
         }
@@ -392,10 +431,7 @@ fn build(name: &str, a: &[&str], bumps: &mut Vec<String>) -> Option<Built> {
             arity!(6);
             let (s, mint, d, o, n, dec) = (k!(0), k!(1), k!(2), k!(3), n!(4), b!(5));
             (
-                Token::instruction(
-                    &sf_tok::ApproveChecked { amount: n, decimals: dec },
-                    sf_tok::ApproveCheckedClientAccounts { source: s, mint, delegate: d, owner: o },
-                ),
+                both!(Token, sf_tok::ApproveChecked { amount: n, decimals: dec }, [amount: n, decimals: dec], sf_tok, ApproveCheckedClientAccounts, ApproveCheckedCpiAccounts, { source: s, mint: mint, delegate: d, owner: o }),
                 rf(tok_ref::approve_checked(&tok_id, &s, &mint, &d, &o, &[], n, dec).ok()?),
             )
         }
@@ -403,10 +439,7 @@ fn build(name: &str, a: &[&str], bumps: &mut Vec<String>) -> Option<Built> {
             arity!(5);
             let (mint, acc, au, n, dec) = (k!(0), k!(1), k!(2), n!(3), b!(4));
             (
-                Token::instruction(
-                    &sf_tok::MintToChecked { amount: n, decimals: dec },
-                    sf_tok::MintToCheckedClientAccounts { mint, account: acc, mint_authority: au },
-                ),
+                both!(Token, sf_tok::MintToChecked { amount: n, decimals: dec }, [amount: n, decimals: dec], sf_tok, MintToCheckedClientAccounts, MintToCheckedCpiAccounts, { mint: mint, account: acc, mint_authority: au }),
                 rf(tok_ref::mint_to_checked(&tok_id, &mint, &acc, &au, &[], n, dec).ok()?),
             )
         }
@@ -414,10 +447,7 @@ fn build(name: &str, a: &[&str], bumps: &mut Vec<String>) -> Option<Built> {
             arity!(5);
             let (acc, mint, o, n, dec) = (k!(0), k!(1), k!(2), n!(3), b!(4));
             (
-                Token::instruction(
-                    &sf_tok::BurnChecked { amount: n, decimals: dec },
-                    sf_tok::BurnCheckedClientAccounts { account: acc, mint, owner: o },
-                ),
+                both!(Token, sf_tok::BurnChecked { amount: n, decimals: dec }, [amount: n, decimals: dec], sf_tok, BurnCheckedClientAccounts, BurnCheckedCpiAccounts, { account: acc, mint: mint, owner: o }),
                 rf(tok_ref::burn_checked(&tok_id, &acc, &mint, &o, &[], n, dec).ok()?),
             )
         }
@@ -425,10 +455,7 @@ fn build(name: &str, a: &[&str], bumps: &mut Vec<String>) -> Option<Built> {
             arity!(4);
             let (acc, mint, rent, o) = (k!(0), k!(1), ok!(2), k!(3));
             (
-                Token::instruction(
-                    &sf_tok::InitializeAccount2 { owner: o },
-                    sf_tok::InitializeAccount2ClientAccounts { account: acc, mint, rent },
-                ),
+                both!(Token, sf_tok::InitializeAccount2 { owner: o }, [owner: o], sf_tok, InitializeAccount2ClientAccounts, InitializeAccount2CpiAccounts, { account: acc, mint: mint, rent: rent }),
                 subst(rf(tok_ref::initialize_account2(&tok_id, &acc, &mint, &o).ok()?), 2, rent),
             )
         }
@@ -436,7 +463,7 @@ fn build(name: &str, a: &[&str], bumps: &mut Vec<String>) -> Option<Built> {
             arity!(1);
             let acc = k!(0);
             (
-                Token::instruction(&sf_tok::SyncNative, sf_tok::SyncNativeClientAccounts { account: acc }),
+                both!(Token, sf_tok::SyncNative, [], sf_tok, SyncNativeClientAccounts, SyncNativeCpiAccounts, { account: acc }),
                 rf(tok_ref::sync_native(&tok_id, &acc).ok()?),
             )
         }
@@ -444,10 +471,7 @@ fn build(name: &str, a: &[&str], bumps: &mut Vec<String>) -> Option<Built> {
             arity!(3);
             let (acc, mint, o) = (k!(0), k!(1), k!(2));
             (
-                Token::instruction(
-                    &sf_tok::InitializeAccount3 { owner: o },
-                    sf_tok::InitializeAccount3ClientAccounts { account: acc, mint },
-                ),
+                both!(Token, sf_tok::InitializeAccount3 { owner: o }, [owner: o], sf_tok, InitializeAccount3ClientAccounts, InitializeAccount3CpiAccounts, { account: acc, mint: mint }),
                 rf(tok_ref::initialize_account3(&tok_id, &acc, &mint, &o).ok()?),
             )
         }
@@ -458,10 +482,7 @@ fn build(name: &str, a: &[&str], bumps: &mut Vec<String>) -> Option<Built> {
             let refs: Vec<&Pubkey> = signers.iter().collect();
             let r = tok_ref::initialize_multisig2(&tok_id, &ms, &refs, m).ok();
             (
-                Token::instruction(
-                    &sf_tok::InitializeMultisig2 { m },
-                    sf_tok::InitializeMultisig2ClientAccounts { multisig: ms, signers: signers.clone() },
-                ),
+                both_rest!(Token, sf_tok::InitializeMultisig2 { m }, [m: m], sf_tok, InitializeMultisig2ClientAccounts, InitializeMultisig2CpiAccounts, { multisig: ms }, signers),
                 Reference { ix: r, applicable: true },
             )
         }
@@ -470,10 +491,7 @@ fn build(name: &str, a: &[&str], bumps: &mut Vec<String>) -> Option<Built> {
             let (mint, d, ma, fa) = (k!(0), b!(1), k!(2), ok!(3));
             bumps.push(format!("opt:freeze_authority:{}", fa.is_some()));
             (
-                Token::instruction(
-                    &sf_tok::InitializeMint2 { decimals: d, mint_authority: ma, freeze_authority: fa },
-                    sf_tok::InitializeMint2ClientAccounts { mint },
-                ),
+                both!(Token, sf_tok::InitializeMint2 { decimals: d, mint_authority: ma, freeze_authority: fa }, [decimals: d, mint_authority: ma, freeze_authority: fa], sf_tok, InitializeMint2ClientAccounts, InitializeMint2CpiAccounts, { mint: mint }),
                 rf(tok_ref::initialize_mint2(&tok_id, &mint, &ma, fa.as_ref(), d).ok()?),
             )
         }
@@ -481,7 +499,7 @@ fn build(name: &str, a: &[&str], bumps: &mut Vec<String>) -> Option<Built> {
             arity!(1);
             let mint = k!(0);
             (
-                Token::instruction(&sf_tok::GetAccountDataSize, sf_tok::GetAccountDataSizeClientAccounts { mint }),
+                both!(Token, sf_tok::GetAccountDataSize, [], sf_tok, GetAccountDataSizeClientAccounts, GetAccountDataSizeCpiAccounts, { mint: mint }),
                 rf(tok_ref::get_account_data_size(&tok_id, &mint).ok()?),
             )
         }
@@ -489,10 +507,7 @@ fn build(name: &str, a: &[&str], bumps: &mut Vec<String>) -> Option<Built> {
             arity!(1);
             let acc = k!(0);
             (
-                Token::instruction(
-                    &sf_tok::InitializeImmutableOwner,
-                    sf_tok::InitializeImmutableOwnerClientAccounts { account: acc },
-                ),
+                both!(Token, sf_tok::InitializeImmutableOwner, [], sf_tok, InitializeImmutableOwnerClientAccounts, InitializeImmutableOwnerCpiAccounts, { account: acc }),
                 rf(tok_ref::initialize_immutable_owner(&tok_id, &acc).ok()?),
             )
         }
@@ -500,7 +515,7 @@ fn build(name: &str, a: &[&str], bumps: &mut Vec<String>) -> Option<Built> {
             arity!(2);
             let (mint, n) = (k!(0), n!(1));
             (
-                Token::instruction(&sf_tok::AmountToUiAmount { amount: n }, sf_tok::AmountToUiAmountClientAccounts { mint }),
+                both!(Token, sf_tok::AmountToUiAmount { amount: n }, [amount: n], sf_tok, AmountToUiAmountClientAccounts, AmountToUiAmountCpiAccounts, { mint: mint }),
                 rf(tok_ref::amount_to_ui_amount(&tok_id, &mint, n).ok()?),
             )
         }
@@ -510,23 +525,15 @@ fn build(name: &str, a: &[&str], bumps: &mut Vec<String>) -> Option<Built> {
             let (f, ta, w, mint, sp, tp) = (k!(0), k!(1), k!(2), k!(3), ok!(4), ok!(5));
             bumps.push(format!("opt:token_program:{}", tp.is_some()));
             bumps.push(format!("opt:system_program:{}", sp.is_some()));
-            let accs = sf_ata::CreateClientAccounts {
-                funder: f,
-                token_account: ta,
-                wallet: w,
-                mint,
-                system_program: sp,
-                token_program: tp,
-            };
             let tpk = tp.unwrap_or(tok_id);
             if name == "ata.Create" {
                 (
-                    AssociatedToken::instruction(&sf_ata::Create, accs),
+                    both!(AssociatedToken, sf_ata::Create, [], sf_ata, CreateClientAccounts, CreateCpiAccounts, { funder: f, token_account: ta, wallet: w, mint: mint, system_program: sp, token_program: tp }),
                     subst(pinned(rf(ata_ref::instruction::create_associated_token_account(&f, &w, &mint, &tpk)), 1, &ta), 4, sp),
                 )
             } else {
                 (
-                    AssociatedToken::instruction(&sf_ata::CreateIdempotent, accs),
+                    both!(AssociatedToken, sf_ata::CreateIdempotent, [], sf_ata, CreateClientAccounts, CreateCpiAccounts, { funder: f, token_account: ta, wallet: w, mint: mint, system_program: sp, token_program: tp }),
                     subst(
                         pinned(rf(ata_ref::instruction::create_associated_token_account_idempotent(&f, &w, &mint, &tpk)), 1, &ta),
                         4,
@@ -542,18 +549,7 @@ fn build(name: &str, a: &[&str], bumps: &mut Vec<String>) -> Option<Built> {
             let tpk = tp.unwrap_or(tok_id);
             let r = rf(ata_ref::instruction::recover_nested(&w, &om, &nm, &tpk));
             (
-                AssociatedToken::instruction(
-                    &sf_ata::RecoverNested,
-                    sf_ata::RecoverNestedClientAccounts {
-                        nested_ata: na,
-                        nested_mint: nm,
-                        destination_ata: da,
-                        owner_ata: oa,
-                        owner_mint: om,
-                        wallet: w,
-                        token_program: tp,
-                    },
-                ),
+                both!(AssociatedToken, sf_ata::RecoverNested, [], sf_ata, RecoverNestedClientAccounts, RecoverNestedCpiAccounts, { nested_ata: na, nested_mint: nm, destination_ata: da, owner_ata: oa, owner_mint: om, wallet: w, token_program: tp }),
                 pinned(pinned(pinned(r, 0, &na), 2, &da), 3, &oa),
             )
         }
@@ -561,18 +557,54 @@ fn build(name: &str, a: &[&str], bumps: &mut Vec<String>) -> Option<Built> {
     })
 }
 
+/// Field-by-field comparison of two builds of the same instruction; failure classes `<prefix>_program:<name>`,
+/// `<prefix>_data:<name>`, `<prefix>_metas:<name>`.
+fn compare(prefix: &str, name: &str, what: (&str, &str), f: &Instruction, r: &Instruction, fails: &mut Vec<(String, String)>) {
+    let (fname, rname) = what;
+    if f.program_id != r.program_id {
+        fails.push((
+            format!("{prefix}_program:{name}"),
+            format!("program id: {fname} {} {rname} {}", hex(f.program_id.as_ref()), hex(r.program_id.as_ref())),
+        ));
+    }
+    if f.data != r.data {
+        fails.push((format!("{prefix}_data:{name}"), format!("data: {fname} {} {rname} {}", hex(&f.data), hex(&r.data))));
+    }
+    if f.accounts != r.accounts {
+        let first = f
+            .accounts
+            .iter()
+            .zip(r.accounts.iter())
+            .position(|(x, y)| x != y)
+            .unwrap_or(f.accounts.len().min(r.accounts.len()));
+        fails.push((
+            format!("{prefix}_metas:{name}"),
+            format!(
+                "metas differ first at index {first}: {fname} {} {rname} {}",
+                show_metas(&f.accounts),
+                show_metas(&r.accounts)
+            ),
+        ));
+    }
+}
+
+/// The framework side only (client build, CPI closure, discriminant, field probes) of `<name> <args…>`.
+pub fn build_framework(name: &str, args: &[&str]) -> Option<Framework> {
+    let mut bumps = vec![];
+    build(name, args, &mut bumps).map(|b| b.0)
+}
+
 pub fn exec_ix(rest: &[&str]) -> Exec {
     let Some((name, args)) = rest.split_first() else { return Exec::bad() };
     let mut bumps = vec![format!("ix:{name}")];
     let Some((fw, reference)) = build(name, args, &mut bumps) else { return Exec::bad() };
+    let fw = fw.client;
     let mut fails = vec![];
     let mut nontrivial = false;
     let answer = match &fw {
         Ok(ix) => format!("ok {} {} {}", hex(ix.program_id.as_ref()), hex(&ix.data), show_metas(&ix.accounts)),
         Err(_) => "err:client".to_string(),
     };
-    // independent sanity of the ids the framework declares
-    debug_assert_eq!(sf_sys::System::ID, solana_system_interface::program::ID);
     match (&fw, &reference.ix) {
         (_, None) => bumps.push("ref:refused".into()),
         (_, Some(_)) if !reference.applicable => bumps.push("ref:inapplicable(client key differs from the key the reference fixes)".into()),
@@ -580,32 +612,139 @@ pub fn exec_ix(rest: &[&str]) -> Exec {
         (Ok(f), Some(r)) => {
             nontrivial = true;
             bumps.push("ref:compared".into());
-            if f.program_id != r.program_id {
-                fails.push((
-                    format!("ix_program:{name}"),
-                    format!("program id: framework {} reference {}", hex(f.program_id.as_ref()), hex(r.program_id.as_ref())),
-                ));
-            }
-            if f.data != r.data {
-                fails.push((format!("ix_data:{name}"), format!("data: framework {} reference {}", hex(&f.data), hex(&r.data))));
-            }
-            if f.accounts != r.accounts {
-                let first = f
-                    .accounts
-                    .iter()
-                    .zip(r.accounts.iter())
-                    .position(|(x, y)| x != y)
-                    .unwrap_or(f.accounts.len().min(r.accounts.len()));
-                fails.push((
-                    format!("ix_metas:{name}"),
-                    format!(
-                        "metas differ first at index {first}: framework {} reference {}",
-                        show_metas(&f.accounts),
-                        show_metas(&r.accounts)
-                    ),
-                ));
+            compare("ix", name, ("framework", "reference"), f, r, &mut fails);
+        }
+    }
+    Exec { answer, fails, nontrivial, bumps }
+}
+
+/// Runtime privileges the supplied infos hold, relative to what each slot requires (the flags of the
+/// client-built meta of that slot).
+fn runtime_flags(mode: &str, required: (bool, bool)) -> Option<(bool, bool)> {
+    Some(match mode {
+        // exactly the required ones
+        "exact" => required,
+        // strictly more: every read-only non-signer slot is given a signer + writable info
+        "more" => {
+            if required == (false, false) {
+                (true, true)
+            } else {
+                required
             }
         }
+        // every info is a writable signer in the calling transaction
+        "all" => (true, true),
+        // no privileges at all (the metas are written before the runtime would refuse)
+        "none" => (false, false),
+        _ => return None,
+    })
+}
+
+/// `cpi <mode> <prog>.<Variant> <args…>`: the same instruction built through the CPI path
+/// (`Program::cpi(data, …CpiAccounts, None).invoke()`), captured by the `verif_hooks` CPI handler just before
+/// the `invoke_signed` syscall, with native `AccountInfo`s whose runtime flags are chosen by `mode`.
+/// Oracle: three-way — CPI build = client build = reference builder (program id, data, keys, order, flags).
+pub fn exec_cpi(rest: &[&str]) -> Exec {
+    use hx_native::{AcctSpec, World};
+    use star_frame::verif_hooks::{CpiRecord, CPI_HANDLER};
+    use std::{cell::RefCell, rc::Rc};
+    let Some((mode, rest)) = rest.split_first() else { return Exec::bad() };
+    let Some((name, args)) = rest.split_first() else { return Exec::bad() };
+    if runtime_flags(mode, (false, false)).is_none() {
+        return Exec::bad();
+    }
+    let mut bumps = vec![format!("cpi:{name}"), format!("cpi:mode:{mode}")];
+    let Some((fw, reference)) = build(name, args, &mut bumps) else { return Exec::bad() };
+    let mut fails = vec![];
+    let client = fw.client.as_ref().ok();
+    // one native info per slot
+    let owner = Pubkey::new_from_array([5; 32]);
+    let mut bare_readonly_upgraded = 0usize;
+    let specs: Vec<AcctSpec> = fw
+        .keys
+        .iter()
+        .enumerate()
+        .map(|(j, k)| {
+            let required = client
+                .and_then(|c| {
+                    c.accounts
+                        .get(j)
+                        .filter(|m| &m.pubkey == k)
+                        .or_else(|| c.accounts.iter().find(|m| &m.pubkey == k))
+                })
+                .map(|m| (m.is_signer, m.is_writable))
+                .unwrap_or((false, false));
+            let (s, w) = runtime_flags(mode, required).unwrap();
+            if required == (false, false) && (s || w) {
+                bare_readonly_upgraded += 1;
+            }
+            AcctSpec::new(*k, owner).signer(s).writable(w).lamports(1_000_000)
+        })
+        .collect();
+    if specs.len() > hx_native::MAX_ACCOUNTS {
+        return Exec::bad();
+    }
+    let world = World::new(&specs);
+    let rec: Rc<RefCell<Option<CpiRecord>>> = Rc::new(RefCell::new(None));
+    let sink = rec.clone();
+    CPI_HANDLER.with_borrow_mut(|h| {
+        *h = Some(Box::new(move |r: &CpiRecord| {
+            *sink.borrow_mut() = Some(r.clone());
+            Some(Ok(()))
+        }))
+    });
+    let res = hx_common::catch(|| (fw.cpi)(world.infos()));
+    CPI_HANDLER.with_borrow_mut(|h| *h = None);
+    let res = match res {
+        Ok(r) => r,
+        Err(_) => {
+            return Exec {
+                answer: "panic".into(),
+                fails: vec![(format!("cpi_panic:{name}"), "the CPI build panicked".into())],
+                nontrivial: true,
+                bumps,
+            }
+        }
+    };
+    let got = rec.borrow_mut().take();
+    let (answer, cpi_ix) = match (&res, got) {
+        (Ok(()), Some(r)) => {
+            let ix = Instruction {
+                program_id: r.program_id,
+                data: r.data.clone(),
+                accounts: r.metas.iter().map(|(k, s, w)| AccountMeta { pubkey: *k, is_signer: *s, is_writable: *w }).collect(),
+            };
+            // the infos handed to the runtime are the supplied ones, in meta order
+            let info_keys: Vec<Pubkey> = r.infos.iter().map(|i| Pubkey::new_from_array(*i.key())).collect();
+            if info_keys != ix.accounts.iter().map(|m| m.pubkey).collect::<Vec<_>>() {
+                fails.push((format!("cpi_infos:{name}"), "the account infos handed to the runtime are not in meta order".into()));
+            }
+            (format!("ok {} {} {}", hex(ix.program_id.as_ref()), hex(&ix.data), show_metas(&ix.accounts)), Some(ix))
+        }
+        (Ok(()), None) => ("err:no-cpi".to_string(), None),
+        (Err(_), _) => ("err:cpi".to_string(), None),
+    };
+    let mut nontrivial = false;
+    if bare_readonly_upgraded > 0 {
+        bumps.push("cpi:read-only slot given a signer+writable info".into());
+    }
+    match (&cpi_ix, client) {
+        (Some(c), Some(cl)) => {
+            nontrivial = true;
+            bumps.push("cpi:compared-with-client".into());
+            compare("cpi_vs_client", name, ("cpi", "client"), c, cl, &mut fails);
+        }
+        (None, Some(_)) => fails.push((format!("cpi_build:{name}"), format!("the CPI path answered {answer} where the client path builds"))),
+        _ => {}
+    }
+    match (&cpi_ix, &reference.ix) {
+        (_, None) => bumps.push("cpi:ref:refused".into()),
+        (_, Some(_)) if !reference.applicable => bumps.push("cpi:ref:inapplicable".into()),
+        (Some(c), Some(r)) => {
+            bumps.push("cpi:compared-with-reference".into());
+            compare("cpi_vs_ref", name, ("cpi", "reference"), c, r, &mut fails);
+        }
+        (None, Some(_)) => {}
     }
     Exec { answer, fails, nontrivial, bumps }
 }
